@@ -1,6 +1,9 @@
 import NibabelModel.Model.C20
 import NibabelModel.Lemmas.C20_Load
 import NibabelModel.Lemmas.C20_Trunc
+import NibabelModel.Lemmas.C20_Perm
+import NibabelModel.Lemmas.C20_Lax
+import NibabelModel.Lemmas.C20_Count
 /-! Props/C20 — property theorems for C20 (PAR/REC volumes are assembled by slice labels, not by
     record order).  Helper lemmas: Lemmas/C20_Sort, C20_Vol, C20_Strict, C20_Load. -/
 namespace Nb.C20
@@ -88,75 +91,25 @@ theorem scaling_own_record (c : Cfg) (permit strict orig : Bool) (m : Scaling) (
 example : ∃ o, load exCfg true true .fp false exTrunc = .ok o ∧ o.idx = [0, 1] ∧ o.data = [11, 12] := by
   refine ⟨_, rfl, ?_, ?_⟩ <;> decide
 
-/-- the parts of a successful load -/
-theorem load_ok_parts (c : Cfg) (permit strict orig : Bool) (m : Scaling) (recs : List Rec) (o : Out)
-    (h : load c permit strict m orig recs = .ok o) :
-    ∃ kept nv, sortedSlices c strict orig recs = .ok kept ∧ nVols c recs = .ok nv ∧
-      o.shape = shapeTail (nSlices recs) nv ∧ o.data = (kept.map (·.2)).map (·.payload) ∧
-      o.slopes = (kept.map (·.2)).map (slopeOf m) ∧ o.inters = (kept.map (·.2)).map (interOf m) ∧
-      o.labels = volumeLabels c recs (kept.map (·.2)) := by
-  unfold load at h
-  cases ht : truncationChecks c permit recs with
-  | error e => rw [ht] at h; cases h
-  | ok u =>
-    rw [ht] at h
-    cases hn : nVols c recs with
-    | error e => rw [hn] at h; cases h
-    | ok nv =>
-      rw [hn] at h
-      cases hs : sortedSlices c strict orig recs with
-      | error e => rw [hs] at h; cases h
-      | ok kept =>
-        rw [hs] at h
-        refine ⟨kept, nv, rfl, rfl, ?_⟩
-        simp only [bind, Except.bind, pure, Except.pure] at h
-        split at h
-        · cases h
-        · injection h with h
-          subst h
-          simp [List.map_map, Function.comp_def]
+/-- **load_perm_invariant — hence array, scaling arrays, labels and shape are equal.**  For every
+    key-distinct record list and every permutation of it (slabs permuted alike) the strict load gives
+    the same result: the same error, or the same shape, data (per-slice slab identity, whole and
+    sliced reads), slopes, intercepts and volume labels.  Success itself is order-independent
+    (`truncationChecks_perm`, `nVols_perm`); only the file positions `idx` differ, as they must. -/
+theorem load_perm_invariant (c : Cfg) (permit : Bool) (m : Scaling) (r₁ r₂ : List Rec)
+    (hp : r₁.Perm r₂) (hk : keysNodup c r₁) :
+    (load c permit true m false r₁).map Out.content = (load c permit true m false r₂).map Out.content := by
+  rw [load_content, load_content]
+  unfold loadContent
+  rw [truncationChecks_perm c permit hp, nVols_perm c hp, strict_sort_perm_invariant c r₁ r₂ hp hk,
+    nSlices_perm hp]
+  simp only [volumeLabels_perm' c hp]
 
-theorem volumeLabels_perm (c : Cfg) {r₁ r₂ : List Rec} (hp : r₁.Perm r₂) (kept : List Rec) :
-    volumeLabels c r₁ kept = volumeLabels c r₂ kept := by
-  unfold volumeLabels
-  congr 1
-  apply List.filter_congr
-  intro kf _
-  rw [distinctCount_congr (l₁ := r₁.map kf.2) (l₂ := r₂.map kf.2) (fun a => (hp.map _).mem_iff)]
-
-/-- **hence array, scaling arrays, labels and shape are equal**: two successful strict loads of the
-    same key-distinct records in different file orders (slabs permuted alike) return the same data
-    (per-slice slab identity), slopes, intercepts, volume labels and shape.  (That success itself does
-    not depend on the order is not part of this statement; the error behaviour is compared with the
-    implementation by the correspondence run.) -/
-theorem load_perm_invariant (c : Cfg) (permit : Bool) (m : Scaling) (r₁ r₂ : List Rec) (o₁ o₂ : Out)
-    (hp : r₁.Perm r₂) (hk : keysNodup c r₁)
-    (h₁ : load c permit true m false r₁ = .ok o₁) (h₂ : load c permit true m false r₂ = .ok o₂) :
-    o₁.shape = o₂.shape ∧ o₁.data = o₂.data ∧ o₁.slopes = o₂.slopes ∧ o₁.inters = o₂.inters ∧
-      o₁.labels = o₂.labels := by
-  obtain ⟨k₁, n₁, hs₁, hn₁, e₁⟩ := load_ok_parts c permit true false m r₁ o₁ h₁
-  obtain ⟨k₂, n₂, hs₂, hn₂, e₂⟩ := load_ok_parts c permit true false m r₂ o₂ h₂
-  have hnv : n₁ = n₂ := by
-    have := nVols_perm c hp
-    rw [hn₁, hn₂] at this
-    injection this
-  have hkept : k₁.map (·.2) = k₂.map (·.2) := by
-    have := strict_sort_perm_invariant c r₁ r₂ hp hk
-    unfold assembled at this
-    rw [hs₁, hs₂] at this
-    injection this
-  obtain ⟨a₁, b₁, c₁, d₁, f₁⟩ := e₁
-  obtain ⟨a₂, b₂, c₂, d₂, f₂⟩ := e₂
-  refine ⟨?_, ?_, ?_, ?_, ?_⟩
-  · rw [a₁, a₂, hnv, nSlices_perm hp]
-  · rw [b₁, b₂, hkept]
-  · rw [c₁, c₂, hkept]
-  · rw [d₁, d₂, hkept]
-  · rw [f₁, f₂, hkept, volumeLabels_perm c hp]
-
-example : ∃ o₁ o₂, load exCfg false true .fp false exFull = .ok o₁ ∧
-    load exCfg false true .fp false exFullShuffled = .ok o₂ ∧ o₁.data = [11, 12, 21, 22] ∧ o₂.idx = [1, 3, 2, 0] :=
-  ⟨_, _, rfl, rfl, by decide, by decide⟩
+example : exFull.Perm exFullShuffled ∧ keysNodup exCfg exFull ∧
+    ∃ o₁ o₂, load exCfg false true .fp false exFull = .ok o₁ ∧
+      load exCfg false true .fp false exFullShuffled = .ok o₂ ∧ o₁.data = [11, 12, 21, 22] ∧
+      o₂.idx = [1, 3, 2, 0] :=
+  ⟨by decide, by decide, _, _, rfl, rfl, by decide, by decide⟩
 
 /-- **partial_read_eq_whole.**  A sliced read through the proxy (`dataobj[slicer]`, any non-empty
     slicer) selects from exactly the slabs of the whole-array read, whichever path `_get_unscaled`
@@ -215,24 +168,58 @@ theorem full_flag_meaning (tagged : List (Nat × Int)) (smax : Int) :
       (tv.2, (sliceRange smax).all fun s => decide (tv.2 < tagged.count (tv.1.1, s))) :=
   volsAndFull_eq tagged smax
 
-/- FULL STATEMENT (not proved in this form):
-   ∀ c recs, keysNodup c recs → (∀ r ∈ recs, 1 ≤ r.slice ≤ c.maxSlices) →
-     (∃ s ∈ 1..maxSlices, every record with slice number s belongs to a complete label set) →
-     (some label set is complete) →
-     assembled c recs = .ok (the records of the complete label sets, by label key, then slice).
-   What is proved below: the CURRENT second sort stage followed by the trimming keeps exactly the
-   positions flagged full by the per-set test (`full_flag_meaning`), for EVERY record list (no key
-   hypothesis), under the hypothesis `hn` that `prod(shape[2:])` equals the number of flagged
-   positions.  Missing: (a) the bookkeeping lemma that set numbers identify label keys on the sorted
-   list, which turns "flagged full" into "label set complete" for key-distinct records; (b) a
-   sufficient structural condition for `hn`.  `hn` is genuinely needed: `_get_n_vols` counts GLOBAL
-   slice occurrences (`shape_perm_invariant`, `Lemmas.C20_Vol.mem_fullVols`: n_vols = the number of
-   v such that every slice number occurs more than v times in the whole file), which over-counts when
-   several partial volumes together cover every slice position — see
-   `truncated_multi_partial_overcount_witness` (open finding
-   parrec:truncated-multi-partial-nvols-overcount). -/
-/-- **truncated_exactly_full_volumes (partial).** -/
-theorem truncated_exactly_full_volumes_partial (c : Cfg) (recs : List Rec) (ann : List Ann) (nv : Nat)
+/-- **truncated_exactly_full_volumes.**  For every record list with pairwise distinct strict keys and
+    slice numbers inside 1..max_slices such that
+      (H0) some slice position `s0` occurs only in complete label sets (no partial volume has it), and
+      (H1) at least one label set is complete,
+    strict sorting with trimming returns EXACTLY the records of the complete label sets (`complete`:
+    the records sharing all non-slice strict keys with `r` cover every slice number 1..max_slices),
+    ordered by label key and slice number.
+    H0 is the structural reason why `prod(shape[2:])` is right (`nUsed_correct`): `_get_n_vols` counts
+    global slice occurrences, i.e. min over slice positions of the number of records — it equals the
+    number of complete sets iff some position is free of partial volumes.  It cannot be dropped
+    (`truncated_multi_partial_overcount_witness`), nor can H1 (open finding
+    parrec:truncated-no-complete-volume). -/
+theorem truncated_exactly_full_volumes (c : Cfg) (recs : List Rec) (hk : keysNodup c recs)
+    (hr : ∀ r ∈ recs, 1 ≤ r.slice ∧ r.slice ≤ c.maxSlices)
+    (s0 : Int) (hs0 : 1 ≤ s0 ∧ s0 ≤ c.maxSlices)
+    (H0 : ∀ r ∈ recs, r.slice = s0 → complete c recs r = true)
+    (H1 : ∃ r ∈ recs, complete c recs r = true) :
+    assembled c recs = .ok ((stableSort (strictLe c) recs).filter (complete c recs)) := by
+  have hr' : (recs.map (·.slice)).all (inRange c.maxSlices) = true := by
+    simp only [List.all_eq_true, List.mem_map, inRange, Bool.and_eq_true, decide_eq_true_eq]
+    rintro s ⟨r, hrm, rfl⟩
+    exact hr r hrm
+  obtain ⟨nv, hv, hn⟩ := nUsed_correct c recs hk hr' s0 ((mem_sliceRange _ _).2 hs0) H0 H1
+  exact assembled_complete c recs hk hr' nv hv hn
+
+/-- membership form: a record is kept iff it belongs to a complete label set -/
+theorem truncated_kept_iff (c : Cfg) (recs : List Rec) (hk : keysNodup c recs)
+    (hr : ∀ r ∈ recs, 1 ≤ r.slice ∧ r.slice ≤ c.maxSlices)
+    (s0 : Int) (hs0 : 1 ≤ s0 ∧ s0 ≤ c.maxSlices)
+    (H0 : ∀ r ∈ recs, r.slice = s0 → complete c recs r = true)
+    (H1 : ∃ r ∈ recs, complete c recs r = true) :
+    ∃ kept, assembled c recs = .ok kept ∧ ∀ r, r ∈ kept ↔ r ∈ recs ∧ complete c recs r = true := by
+  refine ⟨_, truncated_exactly_full_volumes c recs hk hr s0 hs0 H0 H1, ?_⟩
+  intro r
+  rw [List.mem_filter, mem_stableSort]
+
+example : keysNodup exCfg exTrunc ∧ (∀ r ∈ exTrunc, 1 ≤ r.slice ∧ r.slice ≤ exCfg.maxSlices) ∧
+    (∀ r ∈ exTrunc, r.slice = 2 → complete exCfg exTrunc r = true) ∧
+    (∃ r ∈ exTrunc, complete exCfg exTrunc r = true) ∧
+    assembled exCfg exTrunc = .ok [exRec 1 1 3 2 5 11, exRec 2 1 (-1) 4 3 12] := by decide
+
+/-- the same conclusion whenever the volume count happens to be right (no structural hypothesis) -/
+theorem truncated_exactly_full_volumes_of_count (c : Cfg) (recs : List Rec) (hk : keysNodup c recs)
+    (hr : (recs.map (·.slice)).all (inRange c.maxSlices) = true) (nv : Nat) (hv : nVols c recs = .ok nv)
+    (hn : nUsedOf (nSlices recs) nv = (recs.filter (complete c recs)).length) :
+    assembled c recs = .ok ((stableSort (strictLe c) recs).filter (complete c recs)) :=
+  assembled_complete c recs hk hr nv hv hn
+
+/-- Without any key hypothesis (duplicate volume labels, V4 diffusion): the second sort stage followed
+    by the trimming keeps exactly the positions flagged full by the per-set test (`full_flag_meaning`)
+    when `prod(shape[2:])` equals their number. -/
+theorem truncated_keeps_flagged_full (c : Cfg) (recs : List Rec) (ann : List Ann) (nv : Nat)
     (ha : annotate c (stableSort (strictLe c) recs) = .ok ann) (hv : nVols c recs = .ok nv)
     (hn : nUsedOf (nSlices recs) nv =
       ((ann.zip (stableSort (strictLe c) recs)).filter isFullEntry).length) :
@@ -248,9 +235,8 @@ theorem truncated_exactly_full_volumes_partial (c : Cfg) (recs : List Rec) (ann 
 example : ∃ ann nv, annotate exCfg (stableSort (strictLe exCfg) exTrunc) = .ok ann ∧
     nVols exCfg exTrunc = .ok nv ∧
     nUsedOf (nSlices exTrunc) nv =
-      ((ann.zip (stableSort (strictLe exCfg) exTrunc)).filter isFullEntry).length ∧
-    assembled exCfg exTrunc = .ok [exRec 1 1 3 2 5 11, exRec 2 1 (-1) 4 3 12] :=
-  ⟨_, _, rfl, rfl, by decide, by decide⟩
+      ((ann.zip (stableSort (strictLe exCfg) exTrunc)).filter isFullEntry).length :=
+  ⟨_, _, rfl, rfl, by decide⟩
 
 /-- three dynamics of two slices; the recording lost slice 2 of dynamic 2 and slice 1 of dynamic 3 -/
 def exMulti : List Rec := [exRec 1 1 0 1 1 11, exRec 2 1 0 1 1 12, exRec 1 2 0 1 1 21, exRec 2 3 0 1 1 32]
@@ -260,20 +246,40 @@ def exMulti : List Rec := [exRec 1 1 0 1 1 11, exRec 2 1 0 1 1 12, exRec 1 2 0 1
     the second "volume" is made of records of two different dynamics. -/
 theorem truncated_multi_partial_overcount_witness :
     nVols ⟨.v42, false, 2, 1, 3, 1, 1⟩ exMulti = .ok 2 ∧
-    (assembled ⟨.v42, false, 2, 1, 3, 1, 1⟩ exMulti).map (·.map (·.payload)) = .ok [11, 12, 21, 32] := by
+    (assembled ⟨.v42, false, 2, 1, 3, 1, 1⟩ exMulti).map (·.map (·.payload)) = .ok [11, 12, 21, 32] ∧
+    -- hypothesis H0 of `truncated_exactly_full_volumes` fails: both slice positions occur in a partial set
+    (∃ r ∈ exMulti, r.slice = 1 ∧ complete ⟨.v42, false, 2, 1, 3, 1, 1⟩ exMulti r = false) ∧
+    (∃ r ∈ exMulti, r.slice = 2 ∧ complete ⟨.v42, false, 2, 1, 3, 1, 1⟩ exMulti r = false) := by
   decide
 
 /-! ### 5. lax sorting preserves the file order -/
 
-/- FULL STATEMENT (not proved): for every record list and every slice number s, the records with slice
-   number s appear in the lax order in their file order (volume index = occurrence number).
-   Proved: a recording whose lax keys (not full, occurrence number, slice number) are already
-   non-decreasing — volume-major files with ascending slice numbers, complete or with a truncated
-   tail, the case in which `_get_unscaled` reads straight from the REC file — is left exactly in file
-   order: the index list is 0, 1, 2, …  Missing for the full statement: stability of `stableSort`
-   on a sorted sublist and monotonicity of the occurrence numbers along equal slice numbers. -/
-/-- **lax_order_preserving (partial).** -/
-theorem lax_order_preserving_partial (c : Cfg) (recs : List Rec) (keys : List (Bool × Nat × Int))
+/-- **lax_order_preserving.**  For EVERY record list and every slice number `s`: under lax sorting
+    the records with slice number `s` appear in the sort order in their file order, with their true
+    positions (the volume index of a record is its occurrence number in the file) — stability of the
+    sort (`sublist_stableSort`) + occurrence numbers increase along equal slice numbers
+    (`occNumbers_lt`) + fullness is downward closed in the occurrence number. -/
+theorem lax_order_preserving (c : Cfg) (recs : List Rec) (o : List (Nat × Rec))
+    (h : laxOrder c recs = .ok o) (s : Int) :
+    o.filter (fun p => p.2.slice == s) = (indexed recs).filter (fun p => p.2.slice == s) ∧
+    (o.map (·.2)).filter (·.slice == s) = recs.filter (·.slice == s) := by
+  have h1 := laxOrder_filter_slice c recs o h s
+  refine ⟨h1, ?_⟩
+  have hrecs : (indexed recs).map (·.2) = recs := indexedFrom_map_snd 0 recs
+  calc (o.map (·.2)).filter (·.slice == s)
+      = (o.filter (fun p => p.2.slice == s)).map (·.2) := by rw [List.filter_map]; rfl
+    _ = ((indexed recs).filter (fun p => p.2.slice == s)).map (·.2) := by rw [h1]
+    _ = ((indexed recs).map (·.2)).filter (·.slice == s) := by rw [List.filter_map]; rfl
+    _ = recs.filter (·.slice == s) := by rw [hrecs]
+
+example : ∃ o, laxOrder exCfg exFullShuffled = .ok o ∧ o.map (·.1) = [1, 0, 2, 3] := ⟨_, rfl, by decide⟩
+
+/- Special case kept as its own statement: a recording whose lax keys (not full, occurrence number,
+   slice number) are already non-decreasing — volume-major files with ascending slice numbers,
+   complete or with a truncated tail, the case in which `_get_unscaled` reads straight from the REC
+   file — is left exactly in file order: the index list is 0, 1, 2, … -/
+/-- lax sorting of an already ordered file is the identity -/
+theorem lax_identity_of_sorted_keys (c : Cfg) (recs : List Rec) (keys : List (Bool × Nat × Int))
     (hk : laxKeys c recs = .ok keys) (hs : keys.Pairwise (fun a b => laxLe a b = true))
     (hl : keys.length = recs.length) :
     laxOrder c recs = .ok (indexed recs) := by
